@@ -47,6 +47,31 @@ type HistGen struct {
 	ops    []*Op
 	native bool
 	regs   []string // registered native expression texts
+	// keys of the items the history has put so far, per table: reads aim at them half of the time
+	putKeys map[string][]Item
+}
+
+// knownKey: the key of an item that was put into t earlier (it may have been deleted since), or a fresh one
+func (g *HistGen) knownKey(t *TableSpec) Item {
+	if ks := g.putKeys[t.Name]; len(ks) > 0 && g.r.Chance(55) {
+		return pick(g.r, ks)
+	}
+	return g.genKey(t)
+}
+
+func (g *HistGen) notePut(t *TableSpec, it Item) {
+	if g.putKeys == nil {
+		g.putKeys = map[string][]Item{}
+	}
+	k := Item{}
+	for _, kv := range it {
+		if string(kv.K) == t.Hash[0] || (t.Range != nil && string(kv.K) == t.Range[0]) {
+			k = append(k, kv)
+		}
+	}
+	if len(k) == 1+map[bool]int{true: 1, false: 0}[t.Range != nil] {
+		g.putKeys[t.Name] = append(g.putKeys[t.Name], k)
+	}
 }
 
 var hashVals = []string{"a", "b", "c", "p", "q"}
@@ -60,7 +85,8 @@ var rangeValsNum = []string{"1", "2", "3", "10", "9", "5", "7"}
 
 // distinct numbers that a binary64 (or a 17-digit rendering) cannot tell apart: distinct keys
 var rangeValsNumClose = []string{"9007199254740993", "9007199254740992", "0.1234567890123456789", "0.1234567890123456788", "12345678901234567890123456789012345678", "12345678901234567890123456789012345679"}
-var gVals = []string{"x", "y", "z", "x.y", "w"}
+// index key values: a value, the same followed by the separator, by a byte below it and by one above it
+var gVals = []string{"x", "y", "z", "x.y", "w", "x-", "x/y"}
 var vVals = []string{"0", "1", "2", "3", "4", "5"}
 
 func (g *HistGen) keyVal(t string, pool []string) AV {
@@ -458,6 +484,7 @@ func (g *HistGen) genPut() {
 		}
 	}
 	g.maybeCond(t, op)
+	g.notePut(t, op.Item)
 	g.ops = append(g.ops, op)
 }
 
@@ -571,7 +598,7 @@ func (g *HistGen) genDelete() {
 
 func (g *HistGen) genGet() {
 	t := g.pickTable()
-	op := &Op{Op: "get", Table: HexS(t.Name), KeyItem: g.genKey(t)}
+	op := &Op{Op: "get", Table: HexS(t.Name), KeyItem: g.knownKey(t)}
 	if g.r.Chance(g.p.BadPct / 2) {
 		op.KeyItem = g.badKey(t)
 	}
@@ -925,7 +952,7 @@ func (g *HistGen) genBatchGet() {
 		}
 		tk := TableKeys{Table: HexS(t.Name)}
 		for i := 0; i < 1+g.r.Intn(5); i++ {
-			tk.Keys = append(tk.Keys, g.genKey(t))
+			tk.Keys = append(tk.Keys, g.knownKey(t))
 		}
 		op.GReqs = append(op.GReqs, tk)
 	}
